@@ -421,7 +421,12 @@ func (c *Ctx) parseContracts(p *packages.Package) error {
 						lastClause = &cur.Exits[len(cur.Exits)-1].Clause
 					case "defines":
 						// defines <uninterpreted call> : result == that call, assumed at call sites only
-						cl, err := parseClause("result == " + strings.TrimSpace(rest))
+						// (or a whole relation that mentions result, e.g. `defines payloadOf(result) == p`)
+						txt := "result == " + strings.TrimSpace(rest)
+						if regexp.MustCompile(`\bresult\b`).MatchString(rest) {
+							txt = strings.TrimSpace(rest)
+						}
+						cl, err := parseClause(txt)
 						if err != nil {
 							return fmt.Errorf("%s: %v", where, err)
 						}
